@@ -1,6 +1,7 @@
 package props
 
 import (
+	"github.com/jotaen/klog/klog/app/cli/report"
 	"fmt"
 	"time"
 
@@ -83,6 +84,21 @@ func runC15(e *core.Env) {
 		panic("harness: reference calendar self-check failed: " + msg)
 	}
 	years := c15Years(e)
+	// two global cases (each on one shard): bucket keys over the WHOLE calendar, and walking the calendar backwards period by period
+	for g := 0; g < 2; g++ {
+		i := int64(len(years) + g)
+		if !e.Mine(i) {
+			continue
+		}
+		if g == 0 {
+			e.Begin(i, []byte("global bucket keys"))
+			e.Evals(c15GlobalBuckets(e))
+		} else {
+			e.Begin(i, []byte("backward walks"))
+			e.Evals(c15BackwardWalks(e))
+		}
+		e.End(i)
+	}
 	for idx, y := range years {
 		i := int64(idx)
 		if !e.Mine(i) {
@@ -105,6 +121,127 @@ func runC15(e *core.Env) {
 		e.Evals(n)
 		e.End(i)
 	}
+}
+
+// c15GlobalBuckets: one representative date per period over the whole calendar; the period hashes and the keys the report
+// aggregators group by must tell any two different periods apart (the per-year pass cannot see two far-apart periods
+// that share a key), and every date of a period must get that period's key from the aggregator as well.
+func c15GlobalBuckets(e *core.Env) int64 {
+	var n int64
+	viol := func(key, msg string) { e.Violation(key, msg, map[string]any{"scope": "whole calendar"}) }
+	type src struct {
+		name string
+		kind ref.PeriodKind
+		key  func(d klog.Date) uint64
+	}
+	wa, ma, qa, ya, da := report.NewWeekAggregator(), report.NewMonthAggregator(), report.NewQuarterAggregator(), report.NewYearAggregator(), report.NewDayAggregator()
+	srcs := []src{
+		{"week-hash", ref.PWeek, func(d klog.Date) uint64 { return uint64(period.NewWeekFromDate(d).Hash()) }},
+		{"month-hash", ref.PMonth, func(d klog.Date) uint64 { return uint64(period.NewMonthFromDate(d).Hash()) }},
+		{"quarter-hash", ref.PQuarter, func(d klog.Date) uint64 { return uint64(period.NewQuarterFromDate(d).Hash()) }},
+		{"year-hash", ref.PYear, func(d klog.Date) uint64 { return uint64(period.NewYearFromDate(d).Hash()) }},
+		{"week-report-key", ref.PWeek, func(d klog.Date) uint64 { return uint64(wa.DateHash(d)) }},
+		{"month-report-key", ref.PMonth, func(d klog.Date) uint64 { return uint64(ma.DateHash(d)) }},
+		{"quarter-report-key", ref.PQuarter, func(d klog.Date) uint64 { return uint64(qa.DateHash(d)) }},
+		{"year-report-key", ref.PYear, func(d klog.Date) uint64 { return uint64(ya.DateHash(d)) }},
+		{"day-report-key", ref.PDay, func(d klog.Date) uint64 { return uint64(da.DateHash(d)) }},
+	}
+	for _, s := range srcs {
+		seen := map[uint64]int{} // key -> first day of the period that owns it
+		bad := 0
+		step := 1
+		for day := ref.MinDay; day <= ref.MaxDay && bad < 3; {
+			rd := ref.DateFromDays(day)
+			since, until := ref.PeriodBounds(s.kind, rd)
+			if since < ref.MinDay {
+				since = ref.MinDay
+			}
+			if until > ref.MaxDay {
+				until = ref.MaxDay
+			}
+			// first, a middle and the last day of the period must agree; the key must be new
+			var keys [3]uint64
+			pi := core.Guard(func() {
+				for k, dd := range []int{since, (since + until) / 2, until} {
+					x := ref.DateFromDays(dd)
+					keys[k] = s.key(kdate(x.Y, x.M, x.D))
+				}
+			})
+			n += 3
+			if pi != nil {
+				viol(s.name+"-panic: "+pi.Site(), fmt.Sprintf("%s for the period %s..%s: %s", s.name, fmtDays(since), fmtDays(until), pi.Value))
+				bad++
+			} else if keys[0] != keys[1] || keys[1] != keys[2] {
+				viol(s.name+"-split", fmt.Sprintf("%s: the days %s, %s and %s belong to one period but get the keys %d, %d, %d", s.name, fmtDays(since), fmtDays((since+until)/2), fmtDays(until), keys[0], keys[1], keys[2]))
+				bad++
+			} else if other, dup := seen[keys[0]]; dup {
+				viol(s.name+"-collision", fmt.Sprintf("%s: the periods starting at %s and at %s are different but share the key %d", s.name, fmtDays(other), fmtDays(since), keys[0]))
+				bad++
+			} else {
+				seen[keys[0]] = since
+			}
+			if s.kind == ref.PDay && day > ref.MinDay+800 && day < ref.MaxDay-800 {
+				step = 97 // days: both ends of the calendar completely, every 97th day in between (the per-year pass sees them all)
+			} else {
+				step = 1
+			}
+			day = until + step
+		}
+		e.Count("global_distinct_"+s.name, int64(len(seen)))
+	}
+	return n
+}
+
+// c15BackwardWalks applies Previous() again and again, from the last period of the calendar down to the first: each
+// result must end the day before its successor begins (a single Previous() being right does not imply that).
+func c15BackwardWalks(e *core.Env) int64 {
+	var n int64
+	last := kdate(9999, 12, 31)
+	type walker struct {
+		name string
+		kind ref.PeriodKind
+		cur  func() period.Period
+		prev func() bool // steps back; false if it panicked
+	}
+	wk, mo, qu, yr := period.NewWeekFromDate(last), period.NewMonthFromDate(last), period.NewQuarterFromDate(last), period.NewYearFromDate(last)
+	ws := []walker{
+		{"week", ref.PWeek, func() period.Period { return wk.Period() }, func() bool { return core.Guard(func() { wk = wk.Previous() }) == nil }},
+		{"month", ref.PMonth, func() period.Period { return mo.Period() }, func() bool { return core.Guard(func() { mo = mo.Previous() }) == nil }},
+		{"quarter", ref.PQuarter, func() period.Period { return qu.Period() }, func() bool { return core.Guard(func() { qu = qu.Previous() }) == nil }},
+		{"year", ref.PYear, func() period.Period { return yr.Period() }, func() bool { return core.Guard(func() { yr = yr.Previous() }) == nil }},
+	}
+	for _, w := range ws {
+		since := ref.DaysFromCivil(w.cur().Since().Year(), w.cur().Since().Month(), w.cur().Since().Day())
+		steps := 0
+		for {
+			pu := since - 1
+			if pu < ref.MinDay {
+				break
+			}
+			ps, _ := ref.PeriodBounds(w.kind, ref.DateFromDays(pu))
+			if ps < ref.MinDay || w.kind == ref.PWeek && pu-6 < ref.MinDay {
+				break // the previous period sticks out of the calendar: not demanded
+			}
+			n++
+			if !w.prev() {
+				e.Violation(w.name+"-previous-panic", fmt.Sprintf("walking backwards: Previous() of the %s starting %s panicked (step %d)", w.name, fmtDays(since), steps+1), nil)
+				break
+			}
+			var p period.Period
+			if pi := core.Guard(func() { p = w.cur() }); pi != nil {
+				e.Violation(w.name+"-previous-panic", fmt.Sprintf("walking backwards: Period() after %d steps panicked: %s", steps+1, pi.Value), nil)
+				break
+			}
+			if !sameDate(p.Since(), ps) || !sameDate(p.Until(), pu) {
+				e.Violation(w.name+"-previous-chain", fmt.Sprintf("walking backwards from 9999-12-31, step %d: the %s before the one starting %s is %s..%s, want %s..%s", steps+1, w.name, fmtDays(since), p.Since().ToString(), p.Until().ToString(), fmtDays(ps), fmtDays(pu)), nil)
+				break
+			}
+			since = ps
+			steps++
+		}
+		e.Count("backward_walk_steps_"+w.name, int64(steps))
+	}
+	return n
 }
 
 type c15hashes struct {
